@@ -16,7 +16,8 @@ import (
 
 // Action describes what a goroutine does when it passes an armed point.
 type Action struct {
-	// Mode is one of "park", "sleep", "yield". Any other value only counts.
+	// Mode is one of "park", "spin", "sleep", "yield". Any other value only
+	// counts.
 	Mode string
 	// Skip is the number of passages to let through before acting.
 	Skip int
@@ -107,6 +108,22 @@ func At(name string) {
 	case "park":
 		atomic.AddInt64(&p.parked, 1)
 		<-release
+		atomic.AddInt64(&p.parked, -1)
+	case "spin":
+		// Like park, but the goroutine keeps running (yielding), so that all
+		// the goroutines which are on a CPU when the point is released proceed
+		// at the same instant; goroutines woken from a channel are made
+		// runnable one after another on a single P instead.
+		atomic.AddInt64(&p.parked, 1)
+	SPIN:
+		for {
+			select {
+			case <-release:
+				break SPIN
+			default:
+				runtime.Gosched()
+			}
+		}
 		atomic.AddInt64(&p.parked, -1)
 	case "sleep":
 		time.Sleep(sleep)
